@@ -195,7 +195,9 @@ def readCafInfo (chunk : List Byte) : List (Nat × List Byte) :=
 def cafOk (e : Nat × List Byte) : Prop := (∀ b ∈ e.2, b ≠ 0) ∧ (cafKey e.1).isSome
 
 /-- the total the buffer must hold -/
-def cafNeed (es : List (Nat × List Byte)) : Nat := (es.map fun e => ((cafKey e.1).getD []).length + e.2.length + 2).foldl (· + ·) 0
+def cafNeed : List (Nat × List Byte) → Nat
+  | [] => 0
+  | e :: rest => ((cafKey e.1).getD []).length + e.2.length + 2 + cafNeed rest
 
 /-! ## 4. Channel layout tags and the `chan` chunk -/
 
